@@ -25,8 +25,8 @@ CLAIMS = {
          "Thin structural clauses: the indexed and the linear key lookup implement the same duplicate-key policy (first occurrence), and lookup methods are effect-free on their receiver. Whether the native search lands on the right bytes is NOT decided.",
          "native get_by_path/skip are byte arrays; typed accessor values are runtime values.",
          "DESIGN.md §3.6 S5, §4 C14"),
- "C15": ("sibling agreement (duplicate-key policy), must-touch pairing of index maintenance, must-precede guard of mutators, effect-freedom of lookups",
-         "Thin structural clauses of the lazy tree: one duplicate-key policy, every slot writer maintains the key index, each mutator forces the parsed form before its first store, lookups never write. Equality with an ordered-map model over histories is NOT decided.",
+ "C15": ("sibling agreement (duplicate-key policy), must-touch pairing of index maintenance, must-precede guard of mutators, effect-freedom of lookups, index-domain rule (physical slots vs logical length)",
+         "Thin structural clauses of the lazy tree: one duplicate-key policy, every slot writer maintains the key index, each mutator forces the parsed form before its first store, lookups never write, slot loops are bounded by the container's own slot count. Equality with an ordered-map model over histories is NOT decided.",
          "Operation histories are not explored; only the mechanisms that make laziness unobservable are checked.",
          "DESIGN.md §3.6 S5/S8/S9, §4 C15"),
  "C16": ("lockset analysis over go/cfg of the per-node RWMutex discipline; publication-order and whole-node-store rules",
@@ -41,8 +41,8 @@ CLAIMS = {
          "Static necessary-condition check: every Config field, setter and exported option constant is resolved by object through its initialiser chain to one canonical bit; each bit keeps its consumers in both executors; entry-point shims delegate to ConfigDefault in order. Value-level 'no other effect' is not decided.",
          "Trusts go/types constant/object resolution and the frozen wiring tables (16 fields, 13 setters, consumer table). optdec ignoring UseUnicodeErrors is a recorded known finding (F-7).",
          "DESIGN.md §3.1, §4 C18"),
- "C01": ("abstract interpretation of the jitdec IR compiler's source over the emitted IR template (go/cfg-equivalent path enumeration): label resolution, state-stack balance, depth tags; opcode totality",
-         "Static necessary-condition check of the decoder's compiled programs: on every Go-level path of every compile* function each emitted branch is pinned or handed on, the state stack is balanced on the emitted control flow, nesting is tagged, and every opcode has its handler. Decoded values, field-selection semantics (resolver) and natives are NOT decided.",
+ "C01": ("abstract interpretation of the jitdec IR compiler's source over the emitted IR template (go/cfg-equivalent path enumeration): label resolution, state-stack balance, depth tags; opcode totality; decision-sequence cross-check of the field resolver against encoding/json's source in GOROOT",
+         "Static necessary-condition check of the decoder's compiled programs: on every Go-level path of every compile* function each emitted branch is pinned or handed on, the state stack is balanced on the emitted control flow, nesting is tagged, and every opcode has its handler; sonic's copy of encoding/json's field resolver (typeFields and helpers) takes every branch decision and call of the GOROOT original in the same order. Decoded values, the comparator closures of the resolver and natives are NOT decided.",
          "Trusts the emitter-DSL model (add/chr/int/rtt/pin/rel/tag) and the branch-op table, which is re-derived from the x86 handlers on every run.",
          "DESIGN.md §3.2 I0-I3, §4 C01"),
  "C05": ("forward dataflow over emitted x86 templates (bytes proven available at the input cursor), go/cfg dataflow for raw-pointer reads, constant relations for the padded copy",
